@@ -126,8 +126,19 @@ macro_rules! harness_list {
         #[cfg(all(test, not(kani)))]
         #[test]
         fn verif_replay() {
-            let name = match std::env::var("VERIF_HARNESS") { Ok(n) => n, Err(_) => return };
-            let hex = std::env::var("VERIF_TAPE").unwrap_or_default();
+            // The runner passes (harness, tape) through a file: cargo-miri bakes the environment
+            // of the BUILD into the test binary, so environment variables go stale under Miri.
+            let from_file = std::fs::read_to_string(concat!("/verif/build/replay_", env!("CARGO_PKG_NAME"), ".in")).ok();
+            let (name, hex) = match from_file {
+                Some(s) => {
+                    let mut it = s.lines();
+                    (it.next().unwrap_or("").to_string(), it.next().unwrap_or("").to_string())
+                }
+                None => match std::env::var("VERIF_HARNESS") {
+                    Ok(n) => (n, std::env::var("VERIF_TAPE").unwrap_or_default()),
+                    Err(_) => return,
+                },
+            };
             let tape: Vec<u8> = (0..hex.len() / 2)
                 .map(|i| u8::from_str_radix(&hex[2 * i..2 * i + 2], 16).unwrap())
                 .collect();
